@@ -38,6 +38,11 @@ func (b *ReorderBuffer[T]) Add(seq uint64, item T) {
 // blocks until the buffer is no longer full.
 func (b *ReorderBuffer[T]) Reserve() uint64 {
 	b.reserved <- struct{}{}
+
+	// Take the lock only after a slot is available: Drain holds it while it
+	// frees slots.
+	b.mu.Lock()
+	defer b.mu.Unlock()
 	seq := b.nextSeqNum
 	b.nextSeqNum++
 	return seq
